@@ -13,7 +13,7 @@ PROPERTY = "C19"
 LEVEL = "exploration"
 BUDGET = {"quick": 160, "thorough": 6000}
 CHUNK = 1
-RUN_TIMEOUT_S = 600
+RUN_TIMEOUT_S = 1500
 MAX_DISCARD_FRACTION = 0.5
 RULE = (
     "seeded conservative scenes (gravity, force-form springs on two-point interactions and revolute joints, point-mass and "
